@@ -335,6 +335,13 @@ def pyMulNative (h : Heap) (a b : Val) : R (Val × Heap) :=
     | _, _ =>
       let rep {α : Type} (xs : List α) (n : Int) : List α :=
         (List.replicate n.toNat xs).flatten
+      let huge (len : Nat) (n : Int) : Bool := decide (len * n.toNat > 1000000)
+      let lenOf : Val → Nat := fun v => match v with
+        | .str s => s.length | .tuple s => s.length
+        | .ref x => (match h.get? x with | some (.list xs) => xs.length | _ => 0)
+        | _ => 0
+      let cnt : Int := match toInt? a, toInt? b with | some n, _ => n | _, some n => n | _, _ => 0
+      if huge (max (lenOf a) (lenOf b)) cnt then U "repeat-huge" else
       match a, b with
       | .str s, .int n => .ok (.str (rep s n), h)
       | .str s, .bool n => .ok (.str (rep s (boolInt n)), h)
